@@ -47,7 +47,7 @@ package dns
 //@   callsite "PutUint16" arcount: arg2 == (callres("Uint16") + 65535) % 65536
 //@   callsite "PutUint16" received: arg2 == (dh.Arcount + 65535) % 65536 && ref(arg1) == ref(msg) && sliceoff(arg1) == sliceoff(msg) + 10
 //@   assert at "arcount := binary.BigEndian.Uint16(msg[10:])" found: hdr(extra).Rrtype == 250 && tsigoff <= off
-//@   assume at "rr = extra.(*TSIG)" typetable: isptrtype(extra, TSIG)
+//@   assert at "rr = extra.(*TSIG)" typetable: isptrtype(extra, TSIG)
 
 // verification order (RFC 8945 5.2): MAC first, then the time window; success implies both
 //@ func tsigVerify [C11]
